@@ -104,7 +104,7 @@ AscSeqW(X) == IF X = {} THEN <<>>
 ---------------------------------------------------------------------------
 (* schema components as the code sees them *)
 Particles(S, T) ==      \* content model of type T: sequence of [name, ty, dc]
-  CASE T = "root" -> [p \in 1..Len(S.kids) |-> [name |-> KidName(p), ty |-> S.kids[p].ty, dc |-> p,
+  CASE T = "root" -> [p \in 1..Len(S.kids) |-> [name |-> KidName(p), ty |-> DeclTy(S.kids[p]), dc |-> p,
                                                  subst |-> IF S.kids[p].sg THEN {"m"} ELSE {}]]
     [] T = "grp"  -> <<[name |-> "b", ty |-> "boolean", dc |-> 8, subst |-> {}]>>
     [] OTHER      -> <<>>                               \* simple types, simple content: no model group
@@ -115,7 +115,7 @@ TypeAttrs(S, T) ==      \* attribute declarations of a complex type: set of [nm,
 IsComplex(T) == T \in {"root", "sc", "grp"}
 DeclTypeOf(S, dc) == CASE dc = 9 -> "root" [] dc = 8 -> "boolean"
                        [] dc = 7 -> SgMember(S.kids[1].ty)        \* the global element m
-                       [] OTHER -> S.kids[dc].ty
+                       [] OTHER -> DeclTy(S.kids[dc])
 Matches(pt, name) == pt.name = name \/ name \in pt.subst          \* XsdElement.is_matching
 FirstMatch(ps, name) ==   \* iter_elements(): the first particle that matches the name; the declaration is the
                           \* particle's, or -- matched through the substitution group -- the global element of
